@@ -27,14 +27,19 @@ PIDS = (7, 8, 9)
 
 def new_interp(prog):
     I = gates.session_interp(prog, effects=False)
+    install_spawn(I)
+    return I
+
+
+def install_spawn(I):
 
     def m_spawn(I, st, f, args, fr):
         I.stats['models_used'].add('RemoteActor::spawn_linked: a future yielding a fresh proxy (or a spawn error)')
         pid = None
         for a in args:
             v = a.concrete() if isinstance(a, Sc) else None
-            if v in PIDS:
-                pid = v
+            if v is not None and pid is None:
+                pid = v      # the first integer argument is the remote pid (the node id of the probe sessions is not concrete)
         sup = models_std.deref_val(I, st, args[-1])
         st.emit('SPAWN_REQ', pid, getattr(sup, 'ident', None) or getattr(getattr(sup, 'fields', [None])[0] if isinstance(sup, Agg) and sup.fields else None, 'ident', None))
         return I.ret(st, Agg('ProxySpawnFut', (I.mk_int(pid if pid is not None else 0, 'u64'),)))
@@ -77,7 +82,6 @@ def new_interp(prog):
             return [Outcome(st, 'ret', models_std.ready(v.fields[0]))]
         return prev(I, st, v, cell, path, cx, fr) if prev else None
     I.hooks['poll_other'] = poll_other
-    return I
 
 
 def table(I, st, prog, sc):
